@@ -13,6 +13,7 @@ import (
 type queuedWorkSpace struct {
 	ws          *WorkSpace
 	wouldMining bool
+	stopSeq     uint64 // ws.stopSeq when the request was made
 }
 
 // newQueuedWorkSpace creates queuedWorkSpace from an existing workSpace.
@@ -21,6 +22,7 @@ func newQueuedWorkSpace(ws *WorkSpace, wouldMining bool) *queuedWorkSpace {
 	return &queuedWorkSpace{
 		ws:          ws,
 		wouldMining: wouldMining,
+		stopSeq:     ws.stopSeq,
 	}
 }
 
@@ -135,6 +137,12 @@ func (sk *SpaceKeeper) spacePlotter() {
 		}
 		// Step 1: safely change state to plotting/mining
 		sk.stateLock.Lock()
+		if qws.stopSeq != ws.stopSeq {
+			// the space was stopped, removed or deleted after this request was made: the request is void,
+			// wherever it was waiting (request channel, queue, or already popped)
+			sk.stateLock.Unlock()
+			return
+		}
 		if _, ok := sk.workSpaceIndex[engine.Registered].Get(sid); ok {
 			changeState(engine.Registered, engine.Plotting)
 		} else {
@@ -147,8 +155,18 @@ func (sk *SpaceKeeper) spacePlotter() {
 		sk.stateLock.Unlock()
 		verifGate(sk, "step1.done")
 
-		// Step 2: plot space (wait for finishing)
-		ws.Plot()
+		// Step 2: plot space (wait for finishing). The plot is started under the state lock, and only if no
+		// stop request came in since step 1: a stop that gets the lock afterwards finds a running plot to abort
+		// (before, a stop landing between step 1 and the start of the plot aborted nothing and the plot ran on).
+		sk.stateLock.RLock()
+		var plotResult chan error
+		if qws.stopSeq == ws.stopSeq {
+			plotResult = ws.db.Plot()
+		}
+		sk.stateLock.RUnlock()
+		if plotResult != nil {
+			<-plotResult
+		}
 		verifGate(sk, "plot.returned")
 
 		// Step 3: change workSpace state
